@@ -646,6 +646,30 @@ def rule_r5(chk, model):
     chk.ob("C10-R5", "series.main._get_date_positions[positions]", ok, "each position is shifted by add_before", g.loc())
     ok = unparse(env.get("pos", ast.Constant(0))).replace(" ", "") == f"tuple(_dates.period_indexes({params(g.node)[0]},{params(g.node)[1]}))"
     chk.ob("C10-R5", "series.main._get_date_positions[base]", ok, "positions are period - base", g.loc())
+    # the whole helper by finite evaluation: any order of the requested periods, gaps (None), before / inside / after the stored rows
+    gps = params(g.node)
+    bad, n_cases = None, 0
+    try:
+        for rows in (0, 1, 4):
+            for pos_in in ((0, 1, 2), (2, 1, 0), (-2, -1, 0), (0, -1, -2), (3, 5, 4), (5, -3, 1), (None, 2, None), (None, None), (), (-1,), (6, 2, -4, None, 0)):
+                got = fin.run_function(g.node, dict(zip(gps, ("DATES", "BASE", rows))), funcs={"_dates.period_indexes": lambda d, b, pos_in=pos_in: iter(pos_in)}, env={})
+                n_cases += 1
+                adj, before, after = list(got[0]), got[1], got[2]
+                size = rows + before + after
+                shifted = [p_ + before if p_ is not None else None for p_ in pos_in]
+                inside = all(a_ is None or 0 <= a_ < size for a_ in adj)
+                if adj != shifted or before < 0 or after < 0 or not inside:
+                    bad = (pos_in, rows, (adj, before, after), f"positions + add_before, every one inside the {size} padded rows")
+                    break
+            if bad:
+                break
+        chk.ob("C10-R5", "series.main._get_date_positions[any order of periods]", bad is None,
+               f"{n_cases} cases (ascending, descending, unsorted, with gaps, before/inside/after 0, 1, 4 stored rows): every requested position, shifted by "
+               "add_before, is a valid row of the padded data (no negative index, none past the end)" if bad is None else
+               f"positions {bad[0]} against {bad[1]} stored rows: (adjusted, add_before, add_after) = {bad[2]} (want {bad[3]}): a negative row index wraps round to the end of the data",
+               g.loc(), sure=True)
+    except (fin.NotFinite, TypeError, IndexError) as ex:
+        chk.undecided("C10-R5", "series.main._get_date_positions[any order of periods]", f"not evaluable: {type(ex).__name__}: {ex}", g.loc())
     s = model.methods["set_data"]
     chk.saw(s.mod, s.qual)
     src = unparse(s.node).replace(" ", "")
@@ -772,6 +796,39 @@ def rule_r7(chk, model):
         chk.saw(mod)
 
 
+def rule_r9(chk, model):
+    chk.rule("C10-R9", "a new Series never shares storage with the one it was made from: conveniences.copies.Mixin.copy is a deep copy, and no "
+             "function of the series package takes a shallow copy (copy.copy / __copy__) of a series - a shifted or transformed result that "
+             "aliases .data lets a later in-place edit of the result rewrite the original", floor=10, shape_independent=True)
+    cm = chk.repo.mod("irispie.conveniences.copies")
+    cf = cm.func("Mixin.copy")
+    chk.saw(cm, "Mixin.copy")
+    rets = [r.value for r in walk_no_nested(cf) if isinstance(r, ast.Return)]
+    ok = len(rets) == 1 and isinstance(rets[0], ast.Call) and (dotted(rets[0].func) or "").endswith("deepcopy") and unparse(rets[0].args[0]) == params(cf)[0]
+    chk.ob("C10-R9", "conveniences.copies.Mixin.copy", ok, f"returns {unparse(rets[0]) if rets else '?'}", cm.loc(cf), sure=True)
+    n = 0
+    for mod in chk.repo.modules.values():
+        if not mod.name.startswith("irispie.series"):
+            continue
+        aliases = mod.aliases
+        copy_mod_names = {k for k, v in aliases.items() if v == "copy"}
+        shallow_funcs = {k for k, v in aliases.items() if v == "copy.copy"}
+        for q, f in mod.functions():
+            for c in ast.walk(f):
+                if not isinstance(c, ast.Call):
+                    continue
+                d = dotted(c.func) or ""
+                is_shallow = (d.split(".")[0] in copy_mod_names and d.endswith(".copy") and d.count(".") == 1) or d in shallow_funcs or d.endswith(".__copy__")
+                is_deep = d.endswith(".copy") and not is_shallow and d.split(".")[0] in ("self", "other", "object", "new", "x") and not c.args
+                if is_shallow:
+                    chk.bad("C10-R9", f"{mod.name.replace('irispie.', '')}.{q}[{unparse(c)[:40]}]", f"{unparse(c)} is a SHALLOW copy: the result shares .data with "
+                            f"{unparse(c.args[0]) if c.args else 'its source'}", mod.loc(c), sure=True)
+                    chk.saw(mod, q)
+                elif is_deep:
+                    n += 1
+                    chk.ok("C10-R9", f"{mod.name.replace('irispie.', '')}.{q}[{unparse(c)[:40]}@{c.lineno}]", "deep copy through Mixin.copy", mod.loc(c))
+
+
 def run(chk):
     model = SeriesModel(chk.repo)
     chk.extra["c10_methods_resolved"] = len(model.methods)
@@ -783,6 +840,7 @@ def run(chk):
     chk.guard(rule_r5, chk, model)
     chk.guard(rule_r7, chk, model)
     chk.guard(rule_r6, chk, model)
+    chk.guard(rule_r9, chk, model)
     from .. import gens
     chk.guard(gens.apply, chk, "C10-R8", {"series"}, 5, "a generator of periods or variants consumed twice leaves later variants / later passes without data")
     from .. import unused as _unused
